@@ -57,12 +57,26 @@ fn unwind_for_teardown() -> ! {
 static PASS_THROUGH_OPS: std::sync::atomic::AtomicU64 = std::sync::atomic::AtomicU64::new(0);
 
 /// Heartbeat of the process: incremented at every scheduling point, at the start and at the end of
-/// every execution.  A watchdog thread of the worker (`start_hang_watchdog`) ends the process with
-/// exit code 3 when it stands still for a minute while an execution is running: crate code is then
-/// in a loop that never reaches an instrumented operation, which the scheduler cannot interrupt.
-/// The driver reports that as inconclusive (exit 2), never as a violation.
+/// every execution.  A watchdog thread of the worker (`start_hang_watchdog`) looks at it every 5 s.
+/// When it has stood still for 60 s (again at 180 s) while an execution is running AND the process
+/// has consumed at least a fifth of that interval as CPU time, crate code is spinning in a loop that
+/// never reaches an instrumented operation (it reads no shared memory, so nothing can ever end the
+/// loop): exit code 4, which the driver confirms by running the shard again and then reports as a
+/// violation (`RunawayLoop`).  A standstill without CPU consumption is the machine starving the
+/// process: exit code 3 after 10 minutes, reported as inconclusive (exit 2), never as a violation.
 pub static HEARTBEAT: std::sync::atomic::AtomicU64 = std::sync::atomic::AtomicU64::new(0);
 pub static EXECUTING: std::sync::atomic::AtomicBool = std::sync::atomic::AtomicBool::new(false);
+
+/// CPU time (user + system, in clock ticks of 1/100 s) consumed by this process so far.
+fn process_cpu_ticks() -> u64 {
+    let s = std::fs::read_to_string("/proc/self/stat").unwrap_or_default();
+    // the fields after the command name (which may contain spaces) start behind the last ')'
+    let rest = s.rsplit(')').next().unwrap_or("");
+    let f: Vec<&str> = rest.split_whitespace().collect();
+    // rest[0] is field 3 (state); utime and stime are fields 14 and 15
+    let get = |k: usize| f.get(k - 3).and_then(|x| x.parse::<u64>().ok()).unwrap_or(0);
+    get(14) + get(15)
+}
 
 pub fn start_hang_watchdog() {
     use std::sync::atomic::Ordering::Relaxed;
@@ -71,18 +85,29 @@ pub fn start_hang_watchdog() {
         .spawn(|| {
             let mut last = HEARTBEAT.load(Relaxed);
             let mut still = 0u32;
+            let mut cpu_at_stop = process_cpu_ticks();
             loop {
                 std::thread::sleep(std::time::Duration::from_secs(5));
                 let now = HEARTBEAT.load(Relaxed);
                 if now == last && EXECUTING.load(Relaxed) {
                     still += 1;
-                    if still >= 12 {
-                        eprintln!("mqv: no scheduling point reached for 60 s inside one execution: the crate is looping without touching shared memory; giving up (inconclusive)");
-                        std::process::exit(3);
+                    if still == 12 || still == 36 || still >= 120 {
+                        // only one managed thread runs at a time: if the process has burnt most of
+                        // the interval as CPU time the thread is spinning, not starved by the machine
+                        let burnt = process_cpu_ticks().saturating_sub(cpu_at_stop);
+                        if burnt >= 100 * 5 * still as u64 / 5 {
+                            eprintln!("mqv: no scheduling point reached for {} s inside one execution while the process used {} s of CPU time: crate code is looping without touching shared memory", 5 * still, burnt / 100);
+                            std::process::exit(4);
+                        }
+                        if still >= 120 {
+                            eprintln!("mqv: no scheduling point reached for 600 s inside one execution (and little CPU time used): giving up (inconclusive)");
+                            std::process::exit(3);
+                        }
                     }
                 } else {
                     still = 0;
                     last = now;
+                    cpu_at_stop = process_cpu_ticks();
                 }
             }
         })
